@@ -57,7 +57,7 @@ var silence sync.Once
 
 var spanTable = []int64{1 * halfHour, 3 * halfHour, 5 * halfHour, 7 * halfHour}
 var keyTable = [][]byte{[]byte("a"), []byte("b"), []byte("c"), []byte("dd"), {0x00, 0xff}}
-var valTable = [][]byte{[]byte("v1"), []byte("v2"), {}}
+var valTable = [][]byte{[]byte("v1"), []byte("v2"), {}, []byte("V1"), {0x80}, {0xff}}
 
 func durStr(d int64) string {
 	return time.Duration(d).String()
